@@ -30,6 +30,15 @@ func mustEngine() *Engine {
 		fmt.Fprintln(os.Stderr, "contracts:", err)
 		os.Exit(3)
 	}
+	// register every heap the effect inference knows about once, then freeze the registry as the starting point of
+	// every function verification (reproducible VCs: vf and check generate the same text for a function)
+	for _, fn := range e.repoFuncs() {
+		e.eff.funcEffects(fn)
+	}
+	e.baseHeapSorts = map[string]string{}
+	for k, v := range e.heapSorts {
+		e.baseHeapSorts[k] = v
+	}
 	if os.Getenv("BBVC_VERBOSE") != "" {
 		fmt.Fprintf(os.Stderr, "engine loaded in %v\n", time.Since(t0))
 	}
